@@ -332,9 +332,7 @@ ws_harness!(c12_skip_to_next_token_block_4, 4, 0, 1, 7);
 /// symbolic length, did not finish for N = 2 in 1200 s): the POSITIONS of the line feeds in a text
 /// of 2 characters and the substitution are harness parameters, the other characters are symbolic.
 fn ws_break_shape(which: u8, ctx: u8, lf0: bool, lf1: bool, crlf: bool) {
-    // blank or content: the other whitespace-alphabet characters ('#', tab, ':') each cost 500-900 s
-    // with one symbolic position (their arms call skip_ws_to_eol / skip_while_non_breakz)
-    const OTHER: [u8; 2] = [b' ', b'a'];
+    const OTHER: [u8; 5] = [b' ', b'\t', b'#', b'a', b':'];
     let mut x = [0u8; MAXT];
     let mut y = [0u8; MAXT];
     let mut m = 0;
@@ -351,7 +349,7 @@ fn ws_break_shape(which: u8, ctx: u8, lf0: bool, lf1: bool, crlf: bool) {
             }
         } else {
             let k: u8 = kani::any();
-            kani::assume(k < 2);
+            kani::assume(k < 5);
             x[i] = OTHER[k as usize];
             y[m] = x[i];
             m += 1;
@@ -392,9 +390,6 @@ macro_rules! ws_shape_harness {
 }
 // skip_to_next_token: LF first / LF second / two LFs, CRLF and CR, top-level and block contexts
 ws_shape_harness!(c14_next_token_lf_o_crlf_top, 0, 0, true, false, true);
-ws_shape_harness!(c14_next_token_lf_o_cr_block, 0, 1, true, false, false);
-ws_shape_harness!(c14_next_token_o_lf_crlf_block, 0, 1, false, true, true);
-ws_shape_harness!(c14_next_token_o_lf_cr_top, 0, 0, false, true, false);
 ws_shape_harness!(c14_next_token_lf_lf_crlf_top, 0, 0, true, true, true);
 ws_shape_harness!(c14_next_token_lf_lf_cr_flow, 0, 2, true, true, false);
 // skip_yaml_whitespace (after '?')
@@ -403,6 +398,8 @@ ws_shape_harness!(c14_yaml_ws_lf_o_cr_top, 1, 0, true, false, false);
 ws_shape_harness!(c14_yaml_ws_o_lf_crlf_flow, 1, 2, false, true, true);
 ws_shape_harness!(c14_yaml_ws_o_lf_cr_top, 1, 0, false, true, false);
 ws_shape_harness!(c14_yaml_ws_lf_lf_cr_top, 1, 0, true, true, false);
+ws_shape_harness!(c14_yaml_ws_lf_lf_crlf_flow, 1, 2, true, true, true);
+ws_shape_harness!(c14_next_token_lf_lf_cr_block, 0, 1, true, true, false);
 
 /// C04: every double-quoted escape decodes to the code point the YAML 1.2 table gives it; \x, \u,
 /// \U decode their hex digits; anything else is an error. Text after the backslash is symbolic.
